@@ -188,6 +188,19 @@ fn mutate(b: &[u8], path: &[u64], kind: &str) -> Option<Vec<u8>> {
             }
             fields[i].payload.clear();
         }
+        "extend32" => {
+            if fields[i].wire_type() != 2 {
+                return None;
+            }
+            fields[i].payload.extend_from_slice(&[0x5a; 32]);
+        }
+        "shrink32" => {
+            if fields[i].wire_type() != 2 || fields[i].payload.len() < 32 {
+                return None;
+            }
+            let n = fields[i].payload.len() - 32;
+            fields[i].payload.truncate(n);
+        }
         "flip_first" => {
             *fields[i].payload.first_mut()? ^= 0x01;
         }
@@ -247,6 +260,7 @@ struct Bases {
     tx: Vec<u8>,
     full: Vec<u8>,
     filtered: Vec<u8>,
+    filtered_empty: Vec<u8>,
     metadata: Vec<u8>,
     rollupdata: Vec<u8>,
 }
@@ -281,6 +295,11 @@ async fn bases() -> Bases {
             data: Bytes::from_static(b"second payload"),
             fee_asset: nria().into(),
         })
+        .with_action(RollupDataSubmission {
+            rollup_id: RollupId::new([3; 32]),
+            data: Bytes::from_static(b"third payload"),
+            fee_asset: nria().into(),
+        })
         .with_action(BridgeLock {
             to: bridge,
             amount: 5,
@@ -296,7 +315,6 @@ async fn bases() -> Bases {
         })
         .build()
         .await;
-    let tx_bytes = tx.encoded_bytes().to_vec();
     fixture.app.execute_transaction(tx.clone()).await.unwrap();
     let deposits = {
         use crate::bridge::StateReadExt as _;
@@ -324,19 +342,40 @@ async fn bases() -> Bases {
     let full = block.clone().into_raw().encode_to_vec();
     let filtered = block
         .clone()
-        .into_filtered_block([RollupId::new([1; 32]), RollupId::new([2; 32])])
+        .into_filtered_block([RollupId::new([1; 32]), RollupId::new([2; 32]), RollupId::new([3; 32])])
         .into_raw()
         .encode_to_vec();
+    // what a client gets that asked for a rollup without data in the block
+    let filtered_empty = block.clone().into_filtered_block([RollupId::new([9; 32])]).into_raw().encode_to_vec();
+    // a transaction that is still fresh for CheckTx after that block (nonce 1)
+    let tx_bytes = fixture
+        .checked_tx_builder()
+        .with_signer(ALICE.clone())
+        .with_nonce(1)
+        .with_action(Transfer {
+            to: astria_address(&[0x31; 20]),
+            amount: 3,
+            asset: nria().into(),
+            fee_asset: nria().into(),
+        })
+        .with_action(RollupDataSubmission {
+            rollup_id: RollupId::new([1; 32]),
+            data: Bytes::from_static(b"later payload"),
+            fee_asset: nria().into(),
+        })
+        .build()
+        .await
+        .encoded_bytes()
+        .to_vec();
     let (meta, datas) = block.split_for_celestia();
     let metadata = meta.into_raw().encode_to_vec();
     let rollupdata = datas.into_iter().next().unwrap().into_raw().encode_to_vec();
-    // the decoders under test must see a state in which the transaction is still fresh (nonce 0 was used by the block,
-    // so CheckedTransaction::new refuses the unmutated transaction with a nonce error: an "error", never a panic)
     Bases {
         fixture,
         tx: tx_bytes,
         full,
         filtered,
+        filtered_empty,
         metadata,
         rollupdata,
     }
@@ -345,7 +384,10 @@ async fn bases() -> Bases {
 /// "error", "value", "panic:<where>" or "inconsistent:<what>"
 async fn decode(b: &Bases, ty: &str, bytes: &[u8]) -> String {
     macro_rules! contract {
-        ($raw:ty, $checked:ty) => {{
+        ($raw:ty, $checked:ty) => {
+            contract!($raw, $checked, |_v: &$checked| -> Option<&'static str> { None })
+        };
+        ($raw:ty, $checked:ty, $stated:expr) => {{
             (|| -> String {
             let raw = match catch_unwind(AssertUnwindSafe(|| <$raw>::decode(bytes))) {
                 Err(_) => return "panic:parse".to_string(),
@@ -357,6 +399,13 @@ async fn decode(b: &Bases, ty: &str, bytes: &[u8]) -> String {
                 Ok(Err(_)) => return "error".to_string(),
                 Ok(Ok(v)) => v,
             };
+            // an accepted value satisfies the type's stated checks (evaluated here with the public accessors, not by
+            // asking the decoder again)
+            match catch_unwind(AssertUnwindSafe(|| $stated(&value))) {
+                Err(_) => return "panic:stated-checks".to_string(),
+                Ok(Some(what)) => return format!("inconsistent:{what}"),
+                Ok(None) => {}
+            }
             // an accepted value is self-consistent
             let again = match catch_unwind(AssertUnwindSafe(|| {
                 let r2 = value.into_raw();
@@ -382,8 +431,49 @@ async fn decode(b: &Bases, ty: &str, bytes: &[u8]) -> String {
         }};
     }
     match ty {
-        "full" => contract!(raw::SequencerBlock, SequencerBlock),
-        "filtered" => contract!(raw::FilteredSequencerBlock, FilteredSequencerBlock),
+        "full" => contract!(raw::SequencerBlock, SequencerBlock, |v: &SequencerBlock| {
+            use sha2::Digest as _;
+            let h = v.header();
+            if !v.rollup_transactions_proof().verify(&sha2::Sha256::digest(h.rollup_transactions_root()), *h.data_hash()) {
+                return Some("rollup transactions root is not proven against the data hash");
+            }
+            for rt in v.rollup_transactions().values() {
+                if !rt.proof()
+                    .audit()
+                    .with_root(*h.rollup_transactions_root())
+                    .with_leaf_builder()
+                    .write(rt.rollup_id().as_bytes())
+                    .write(&merkle::Tree::from_leaves(rt.transactions()).root())
+                    .finish_leaf()
+                    .perform()
+                {
+                    return Some("a rollup's transactions are not proven against the rollup transactions root");
+                }
+            }
+            None
+        }),
+        "filtered" | "filtered_empty" => contract!(raw::FilteredSequencerBlock, FilteredSequencerBlock, |v: &FilteredSequencerBlock| {
+            use sha2::Digest as _;
+            let h = v.header();
+            if !v.rollup_transactions_proof().verify(&sha2::Sha256::digest(v.rollup_transactions_root()), *h.data_hash()) {
+                return Some("rollup transactions root is not proven against the data hash");
+            }
+            for rt in v.rollup_transactions().values() {
+                if !rt
+                    .proof()
+                    .audit()
+                    .with_root(*v.rollup_transactions_root())
+                    .with_leaf_builder()
+                    .write(rt.rollup_id().as_bytes())
+                    .write(&merkle::Tree::from_leaves(rt.transactions()).root())
+                    .finish_leaf()
+                    .perform()
+                {
+                    return Some("a rollup's transactions are not proven against the rollup transactions root");
+                }
+            }
+            None
+        }),
         "metadata" => contract!(raw::SubmittedMetadata, SubmittedMetadata),
         "rollupdata" => contract!(raw::SubmittedRollupData, SubmittedRollupData),
         "tx" => {
@@ -397,7 +487,17 @@ async fn decode(b: &Bases, ty: &str, bytes: &[u8]) -> String {
             use futures::FutureExt as _;
             match AssertUnwindSafe(CheckedTransaction::new(owned, state)).catch_unwind().await {
                 Err(_) => "panic:checked_transaction".to_string(),
-                Ok(Ok(_)) => "value".to_string(),
+                Ok(Ok(tx)) => {
+                    use sha2::Digest as _;
+                    // what the sequencer keys everything by must be the digest of the bytes it keeps
+                    if tx.encoded_bytes().as_ref() != bytes {
+                        "inconsistent:checked transaction keeps other bytes than it was decoded from".to_string()
+                    } else if tx.id().get() != <[u8; 32]>::from(sha2::Sha256::digest(bytes)) {
+                        "inconsistent:transaction id is not the digest of the transaction's bytes".to_string()
+                    } else {
+                        "value".to_string()
+                    }
+                }
                 Ok(Err(_)) => first,
             }
         }
@@ -411,11 +511,12 @@ async fn wire_cases() {
     let mut out = io::Writer::open();
     let b = bases().await;
     // the unmutated encodings are accepted (the transaction by the client-side type)
-    for ty in ["tx", "full", "filtered", "metadata", "rollupdata"] {
+    for ty in ["tx", "full", "filtered", "filtered_empty", "metadata", "rollupdata"] {
         let base = match ty {
             "tx" => &b.tx,
             "full" => &b.full,
             "filtered" => &b.filtered,
+            "filtered_empty" => &b.filtered_empty,
             "metadata" => &b.metadata,
             _ => &b.rollupdata,
         };
@@ -428,6 +529,7 @@ async fn wire_cases() {
             "tx" => b.tx.clone(),
             "full" => b.full.clone(),
             "filtered" => b.filtered.clone(),
+            "filtered_empty" => b.filtered_empty.clone(),
             "metadata" => b.metadata.clone(),
             _ => b.rollupdata.clone(),
         };
